@@ -105,7 +105,9 @@ fn nonhttp_location(i: u8) -> Vec<u8> {
 const FOLLOWED: &[u16] = &[301, 302, 303, 307, 308];
 
 fn path_strategy() -> BoxedStrategy<String> {
-    proptest::collection::vec(prop_oneof![8 => "[a-z0-9]{1,4}", 2 => Just(String::new()).prop_map(|s| s), 2 => "[a-z]\\.[a-z]", 1 => Just("caf\u{e9}".to_string()), 1 => Just("\u{65e5}\u{672c}".to_string())], 0..4)
+    proptest::collection::vec(prop_oneof![8 => "[a-z0-9]{1,4}", 2 => Just(String::new()).prop_map(|s| s), 2 => "[a-z]\\.[a-z]", 1 => Just("caf\u{e9}".to_string()), 1 => Just("\u{65e5}\u{672c}".to_string()),
+        // long raw UTF-8 segments (a hundred octets and more, at every alignment of the multi-octet characters)
+        1 => (0usize..4, 30usize..70).prop_map(|(pad, n)| format!("{}{}", "x".repeat(pad), "\u{e9}\u{65e5}".repeat(n)))], 0..4)
         .prop_map(|mut segs: Vec<String>| {
             // a path starting with "//" would be a network-path reference
             if segs.first().map(|s| s.is_empty()).unwrap_or(false) && segs.len() > 1 {
